@@ -25,6 +25,9 @@
 (* Laws: identity (every reference is the object of definition !N),        *)
 (*   ref-target, placement (inline vs numbered, inline nodes carry ID -1), *)
 (*   def-order (MetadataDefs sorted by ID), distinct, kind (node type),    *)
+(*   attachments (number, names and order of the attachments at every      *)
+(*   position: global, declaration, definition, instruction, terminator;   *)
+(*   their nodes are covered by identity / ref-target / placement),        *)
 (*   named-merge,                                                          *)
 (*   printed-ids (explicit IDs kept by the printer), printed-refs (every   *)
 (*   printed reference is the target's ID).                                *)
@@ -77,6 +80,7 @@ ObsBad(o, w, r, sfx) ==
   + Chk(DefIds(o) = DefIds(w), "parse", "def-order" \o sfx, r)
   + Chk(DefDistinct(o) = DefDistinct(w), "parse", "distinct" \o sfx, r)
   + Chk(DefKind(o) = DefKind(w), "parse", "kind" \o sfx, r)
+  + Chk(G!SiteNames(o.sites) = G!SiteNames(w.sites), "parse", "attachments" \o sfx, r)
   + Chk(NamedNames(o) = NamedNames(w)
         /\ [x \in 1..Len(o.named) |-> G!OpsIds(o.named[x].nodes)]
          = [x \in 1..Len(w.named) |-> G!OpsIds(w.named[x].nodes)], "parse", "named-merge" \o sfx, r)
